@@ -52,14 +52,17 @@ PROP_COMBOS = [lambda: dict(labels=None, capacities='x'), lambda: dict(capacitie
                lambda: dict(labels=None), lambda: dict(name='zz', capacities='x'), lambda: dict(capacities=Capacities(bw=3), site=5)]
 
 
-NI = 10     # size of the interface pool: the first 9 node interfaces of the skeleton + a stale handle
+NI = 11     # size of the interface pool: the first 9 node interfaces of the skeleton + the facility interface + a stale handle
 NSV = 7     # SVC_NAMES + a stale service handle
 
 
 def node_ifaces(t):
     """pool of node interfaces in a fixed order (connected and unconnected ones), and last a STALE handle: an interface
     whose component was removed from the model earlier"""
-    pool = list(t.interface_list)[:NI - 1]
+    pool = list(t.interface_list)[:NI - 2]
+    facs = t.facilities
+    if facs and 'fac1' in facs:
+        pool += list(facs['fac1'].interface_list)[:1]
     stale = getattr(t, 'stale_iface', None)
     return pool + ([stale] if stale is not None else [])
 
